@@ -192,6 +192,15 @@ func (e *specEnv) typeOfExpr(x ast.Expr) types.Type {
 		return types.NewMap(e.typeOfExpr(x.Key), e.typeOfExpr(x.Value))
 	case *ast.ParenExpr:
 		return e.typeOfExpr(x.X)
+	case *ast.ChanType:
+		dir := types.SendRecv
+		switch x.Dir {
+		case ast.SEND:
+			dir = types.SendOnly
+		case ast.RECV:
+			dir = types.RecvOnly
+		}
+		return types.NewChan(dir, e.typeOfExpr(x.Value))
 	case *ast.InterfaceType:
 		return types.NewInterfaceType(nil, nil)
 	}
